@@ -51,6 +51,11 @@ ROWS = {
          "DESIGN.md §3.2 Aead/Stream, §7 C17",
          "caller-visible outputs only (buffers passed in, tag variable, returned values); internal temporaries are out of scope",
          "TLA+ invariant checked by TLC; exhaustive single-fault enumeration with output-buffer canaries"),
+ "C04": ("exploration",
+         "Untrusted.tla states the envelope: per consuming entry point (32, classic and object API) only Ok and Err are allowed, shorter-than-overhead is Err, authentic is Ok; TLC checks the table is total and prints it; the harness runs every entry point in a forked child on every length 0..2*overhead+64 x six content classes, every stream tag byte on authentic messages, and the PwStr.tla mutation grammar plus random strings; panics (overflow checks on), child signals and single allocations beyond 64 KiB + 8*len (+ declared Argon2 memory) are violations",
+         "DESIGN.md §3.2 Untrusted/PwStr, §7 C04",
+         "bytes inside a class are sampled; lengths, tags and grammar exhaustive; caller-sized output buffers as documented",
+         "TLA+ outcome envelope + grammar checked by TLC; table-driven robustness replay with outcome classification"),
 }
 NOT_YET = "check not built yet (work in progress; see DESIGN.md section 7)"
 
